@@ -26,8 +26,9 @@ CONSTANTS MaxN,        \* enumeration bound on the number of nodes
           Histories    \* subset of {"fresh", "rewalk"}
 
 \* "DepartSkipSiblings": visit_* returns normally, depart_* raises SkipSiblings (only meaningful in walkabout)
-PruneKinds == {"none", "SkipChildren", "SkipSiblings", "SkipNode", "SkipDeparture", "DepartSkipSiblings"}
-VisitPrune(k) == IF k = "DepartSkipSiblings" THEN "none" ELSE k        \* what visit_* raises
+\* "DepartError": visit_* returns normally, depart_* raises a genuine error (not a pruning exception): it must reach the caller
+PruneKinds == {"none", "SkipChildren", "SkipSiblings", "SkipNode", "SkipDeparture", "DepartSkipSiblings", "DepartError"}
+VisitPrune(k) == IF k \in {"DepartSkipSiblings", "DepartError"} THEN "none" ELSE k        \* what visit_* raises
 ExtIds == {"B", "B2", "A", "I", "O"}
 When(e) == CASE e \in {"B", "B2"} -> "BEFORE" [] e = "A" -> "AFTER" [] e = "I" -> "INNER" [] e = "O" -> "OUTTER"
 RegOrder == <<"B", "B2", "A", "I", "O">>    \* registration order inside one `when` bucket (ExtList.add)
@@ -56,12 +57,13 @@ InitEnum == /\ Source = "enum" /\ cid = 0
             /\ exts \in SUBSET ExtIds
             /\ ("B2" \in exts => "B" \in exts)
             /\ mode \in Modes
-            /\ (mode = "walk" => \A i \in 1..n : prune[i] # "DepartSkipSiblings")     \* walk() never departs
-            /\ Cardinality({i \in 1..n : prune[i] = "DepartSkipSiblings"}) <= 1       \* one pruning departure per tree
+            /\ (mode = "walk" => \A i \in 1..n : prune[i] \notin {"DepartSkipSiblings", "DepartError"})     \* walk() never departs
+            /\ Cardinality({i \in 1..n : prune[i] \in {"DepartSkipSiblings", "DepartError"}}) <= 1       \* one special departure per tree
             \* the history of the visitor object before this walk: "fresh", or "rewalk" = it has already walked a tree
             \* while it had no extension at all, and the extensions were added afterwards (ExtList.add).  The contract
             \* speaks of the extensions registered NOW: nothing below depends on hist (frame condition).
             /\ hist \in Histories
+            /\ (hist = "rewalk" => \A i \in 1..n : prune[i] \notin {"DepartSkipSiblings", "DepartError"})   \* special departures: fresh visitors only
 InitFile == /\ Source = "file"
             /\ cid \in 1..Len(FileCfgs)
             /\ n = FileCfgs[cid].n
@@ -143,9 +145,12 @@ DepartPre == /\ Running /\ Top.ph = "Dpre"
 \* super().depart(ob): a pruning exception raised by depart_* is remembered until the remaining extensions have left
 DepartMain == /\ Running /\ Top.ph = "Dmain"
               /\ IF Top.callDepart THEN Emit("main", "depart", Top.node) ELSE UNCHANGED events
-              /\ SetTop([Top EXCEPT !.ph = "Dpost", !.k = 1,
-                                    !.pruning = IF Top.callDepart /\ prune[Top.node] = "DepartSkipSiblings" THEN "SkipSiblings" ELSE @])
-              /\ UNCHANGED <<exc, status>>
+              /\ IF Top.callDepart /\ prune[Top.node] = "DepartError"
+                   THEN \* a genuine error is not a pruning exception: nothing catches it, the traversal is abandoned
+                        status' = "failed" /\ UNCHANGED <<stack, exc>>
+                   ELSE /\ SetTop([Top EXCEPT !.ph = "Dpost", !.k = 1,
+                                         !.pruning = IF Top.callDepart /\ prune[Top.node] = "DepartSkipSiblings" THEN "SkipSiblings" ELSE @])
+                        /\ UNCHANGED <<exc, status>>
 DepartPost == /\ Running /\ Top.ph = "Dpost"
               /\ IF Top.k <= Len(PostD)
                    THEN Emit(PostD[Top.k], "depart", Top.node) /\ SetTop([Top EXCEPT !.k = @ + 1]) /\ UNCHANGED exc
@@ -161,7 +166,8 @@ Next == /\ (VisitPre \/ VisitMain \/ VisitPostExt \/ RaiseAbout \/ RaiseWalk \/ 
 Spec == Init /\ [][Next]_vars
 
 \* ------------------------------------------------------------------ the contract (property C19)
-Terminal == status \in {"done", "escaped"}
+Terminal == status \in {"done", "escaped", "failed"}
+Completed == status \in {"done", "escaped"}       \* the traversal was not abandoned because of a genuine error
 Whos == exts \cup {"main"}
 Idx(who, kind, node) == {i \in 1..Len(events) : events[i] = <<who, kind, node>>}
 Pos(who, kind, node) == CHOOSE i \in Idx(who, kind, node) : TRUE
@@ -175,23 +181,23 @@ EnteredAtMostOnce == \A w \in Whos, x \in 1..n : Cardinality(Idx(w, "visit", x))
 \* a pruning exception never leaves the traversal
 NoEscape == status # "escaped"
 \* walkabout: every extension that entered a node also leaves it (and only then)
-ExtBalanced == (Terminal /\ mode = "walkabout") => \A e \in exts, x \in 1..n :
+ExtBalanced == (Completed /\ mode = "walkabout") => \A e \in exts, x \in 1..n :
                     Cardinality(Idx(e, "visit", x)) = Cardinality(Idx(e, "depart", x))
 \* walkabout: the main visitor leaves what it entered, unless it asked not to
-MainBalanced == (Terminal /\ mode = "walkabout") => \A x \in 1..n :
+MainBalanced == (Completed /\ mode = "walkabout") => \A x \in 1..n :
                     /\ (Seen("main", "visit", x) /\ prune[x] \notin {"SkipNode", "SkipDeparture"}) => Seen("main", "depart", x)
                     /\ (Seen("main", "visit", x) /\ prune[x] \in {"SkipNode", "SkipDeparture"}) => ~Seen("main", "depart", x)
                     /\ Seen("main", "depart", x) => Seen("main", "visit", x)
 \* walk: nobody departs
 WalkNoDepart == mode = "walk" => \A i \in 1..Len(events) : events[i][2] = "visit"
 \* enter / leave calls nest like the tree: a node's calls lie between its parent's visit and depart
-WellNested == (Terminal /\ mode = "walkabout") => \A w \in Whos, x \in 2..n :
+WellNested == (Completed /\ mode = "walkabout") => \A w \in Whos, x \in 2..n :
                  Seen(w, "visit", x) =>
                     /\ Seen(w, "visit", parent[x]) /\ Pos(w, "visit", parent[x]) < Pos(w, "visit", x)
                     /\ (Seen(w, "depart", x) /\ Seen(w, "depart", parent[x])) => Pos(w, "depart", x) < Pos(w, "depart", parent[x])
                     /\ Seen(w, "depart", x) => Pos(w, "visit", x) < Pos(w, "depart", x)
 \* documented relative order of the main visitor and the extensions (When)
-DocumentedOrder == Terminal => \A e \in exts, x \in 1..n :
+DocumentedOrder == Completed => \A e \in exts, x \in 1..n :
      /\ (Seen(e, "visit", x) /\ Seen("main", "visit", x)) =>
             IF When(e) \in {"BEFORE", "OUTTER"} THEN Pos(e, "visit", x) < Pos("main", "visit", x)
                                                 ELSE Pos("main", "visit", x) < Pos(e, "visit", x)
@@ -199,7 +205,7 @@ DocumentedOrder == Terminal => \A e \in exts, x \in 1..n :
             IF When(e) \in {"BEFORE", "INNER"} THEN Pos(e, "depart", x) < Pos("main", "depart", x)
                                                ELSE Pos("main", "depart", x) < Pos(e, "depart", x)
 \* who enters a node: everybody or nobody (extensions see what the main visitor sees)
-SameNodesForAll == Terminal => \A e \in exts, x \in 1..n : Seen(e, "visit", x) <=> Seen("main", "visit", x)
+SameNodesForAll == Completed => \A e \in exts, x \in 1..n : Seen(e, "visit", x) <=> Seen("main", "visit", x)
 \* the documented meaning of the pruning exceptions: a node x is visited iff no ancestor pruned its
 \* children (SkipChildren / SkipNode) and no elder sibling of x or of an ancestor raised SkipSiblings
 Elder(x) == {y \in 2..n : parent[y] = parent[x] /\ y < x}
@@ -208,10 +214,13 @@ Visited(x) == IF x = 1 THEN TRUE
               ELSE /\ Visited(parent[x])
                    /\ prune[parent[x]] \notin {"SkipChildren", "SkipNode"}
                    /\ \A s \in Elder(x) : ~(Visited(s) /\ prune[s] \in {"SkipSiblings", "DepartSkipSiblings"})
-PruningMeans == Terminal => \A x \in 1..n : Seen("main", "visit", x) <=> Visited(x)
+PruningMeans == Completed => \A x \in 1..n : Seen("main", "visit", x) <=> Visited(x)
 
-Contract == /\ EnteredAtMostOnce /\ NoEscape /\ ExtBalanced /\ MainBalanced /\ WalkNoDepart
-            /\ WellNested /\ DocumentedOrder /\ SameNodesForAll /\ PruningMeans
+\* an abandoned traversal (a genuine error raised by depart_*) owes nothing but the error itself: ErrorsSurface
+ErrorsSurface == Terminal => ((\E x \in 1..n : prune[x] = "DepartError" /\ Seen("main", "depart", x)) <=> status = "failed")
+Contract == ErrorsSurface /\ (status = "failed" \/
+            /\ EnteredAtMostOnce /\ NoEscape /\ ExtBalanced /\ MainBalanced /\ WalkNoDepart
+            /\ WellNested /\ DocumentedOrder /\ SameNodesForAll /\ PruningMeans)
 
 \* ------------------------------------------------------------------ emission (spec -> code)
 Cfg == [cid |-> cid, n |-> n, parent |-> parent, prune |-> prune, mode |-> mode, hist |-> hist,
